@@ -1,11 +1,12 @@
 /* vsched scenario family for C08: ABT_barrier (wait / reinit, mixed waiter kinds, fast re-entry) and
  * ABT_xstream_barrier.
- * usage: sc_barrier <seed> <mode> <log> <family bar|xbar> <nes> <nw1> <groups1> <rounds1> <nw2> <groups2> <rounds2> [ext%] [ntask]
- *   bar : phase 1 runs nw1*groups1 waiters (ULT / external thread) that each call ABT_barrier_wait rounds1 times on
- *         B0 (num_waiters = nw1, so nw1*groups1*rounds1/nw1 rounds happen), plus ntask tasklets that must be rejected;
- *         then ABT_barrier_reinit(B0, nw2) (preceded by a reinit with 0 that must fail) and phase 2 likewise.
- *   xbar: nw1 callers (one per stream / external thread, kinds mixed incl. tasklets) call ABT_xstream_barrier_wait
- *         rounds1 times on X0 created with num_waiters = nw1; groups1/nw2/... unused.
+ * usage: sc_barrier <seed> <mode> <log> <family bar|xbar> <nes> <nw1> <extra1> <rounds1> <nw2> <extra2> <rounds2> [ext%] [ntask]
+ *   bar : phase 1 runs nw1+extra1 waiters (ULT / external thread) on B0 (num_waiters = nw1); together they make
+ *         nw1*rounds1 calls of ABT_barrier_wait, i.e. rounds1 barrier rounds: a waiter that has returned takes the next
+ *         call from a shared budget (with extra1 = 0 every waiter takes part in every round), plus ntask tasklets that
+ *         must be rejected; then ABT_barrier_reinit(B0, nw2) (preceded by a reinit with 0 that must fail) and phase 2.
+ *   xbar: <nes> <n> <create> <rounds>: n callers (one per stream / external threads, kinds mixed incl. tasklets) call
+ *         ABT_xstream_barrier_wait rounds times on X0 created with num_waiters = create (0: = n; or 1: the guard).
  * Monitors are plain C counters: under vsched a statement sequence without a hook point is atomic. */
 #include "sc_common.h"
 #include <sched.h>
@@ -17,7 +18,8 @@ static ABT_xstream_barrier X0;
 
 /* monitor state of the current phase */
 static int m_nw;               /* num_waiters in effect */
-static int m_rounds;           /* calls per waiter */
+static int m_rounds;           /* rounds in this phase (xbar: calls per waiter) */
+static long m_budget;          /* calls still to be made in this phase (bar) */
 static int m_exact;            /* 1: exactly m_nw waiters, so a waiter's r-th call belongs to round r */
 static long m_calls, m_rets;   /* calls begun / returned */
 static int m_arrived[MAXR];    /* per-round arrivals (m_exact only) */
@@ -70,7 +72,11 @@ static void barrier_body(actor *a)
         VSA_CHECK(rc == ABT_ERR_BARRIER, "ABT_barrier_wait by tasklet A%d returned %d, expected ABT_ERR_BARRIER", a->id, rc);
         return;
     }
-    for (int r = 0; r < m_rounds; r++) {
+    for (int r = 0;; r++) {
+        /* take the next call from the budget (no hook point between the test and the decrement) */
+        if (m_budget == 0)
+            break;
+        m_budget--;
         vs_log("apiCall wait B0");
         m_calls++;
         if (m_exact)
@@ -136,19 +142,19 @@ static void join(int lo, int hi)
     }
 }
 
-static void phase_reset(int nw, int groups, int rounds)
+static void phase_reset(int nw, int extra, int rounds)
 {
     m_nw = nw;
     m_rounds = rounds;
-    m_exact = (groups == 1);
+    m_budget = (long)nw * rounds;
+    m_exact = (extra == 0);
     m_calls = m_rets = 0;
     memset(m_arrived, 0, sizeof m_arrived);
     memset(m_left, 0, sizeof m_left);
 }
-static void phase_end(const char *obj, int nwaiters)
+static void phase_end(const char *obj, long expected)
 {
-    VSA_CHECK(m_calls == (long)nwaiters * m_rounds && m_rets == m_calls, "%s: %ld calls, %ld returns, expected %ld", obj, m_calls,
-              m_rets, (long)nwaiters * m_rounds);
+    VSA_CHECK(m_calls == expected && m_rets == m_calls, "%s: %ld calls, %ld returns, expected %ld", obj, m_calls, m_rets, expected);
     if (m_exact)
         for (int r = 0; r < m_rounds; r++)
             VSA_CHECK(m_left[r] == m_nw, "%s: round %d: %d of %d waiters returned", obj, r, m_left[r], m_nw);
@@ -162,7 +168,7 @@ int main(int argc, char **argv)
         family = vsa_argv[0];
     int nes = (int)vsa_param(1, 2);
     int nw[2] = { (int)vsa_param(2, 2), (int)vsa_param(5, 2) };
-    int groups[2] = { (int)vsa_param(3, 1), (int)vsa_param(6, 1) };
+    int extra[2] = { (int)vsa_param(3, 0), (int)vsa_param(6, 0) };
     int rounds[2] = { (int)vsa_param(4, 2), (int)vsa_param(7, 2) };
     int extpct = (int)vsa_param(8, 30), ntask = (int)vsa_param(9, 0);
     if (nes > MAX_ES)
@@ -185,7 +191,7 @@ int main(int argc, char **argv)
         vs_name_ex(ABTI_barrier_get_ptr(B0), sizeof(ABTI_barrier), VS_SNAP, "B0");
         vs_note("obj B0 nw=%d", nw[0]);
         for (int p = 0; p < 2; p++) {
-            int nwait = nw[p] * groups[p];
+            int nwait = nw[p] + extra[p];
             if (p == 1) {
                 /* a zero count is refused and changes nothing; then the real re-initialisation */
                 int rc0 = ABT_barrier_reinit(B0, 0);
@@ -206,7 +212,7 @@ int main(int argc, char **argv)
                 fprintf(stderr, "too many actors\n");
                 return 2;
             }
-            phase_reset(nw[p], groups[p], rounds[p]);
+            phase_reset(nw[p], extra[p], rounds[p]);
             vs_note("phase %d nw=%d waiters=%d rounds=%d tasklets=%d", p, nw[p], nwait, rounds[p], ntask);
             int n = nwait + ntask;
             for (int i = base; i < base + n; i++) {
@@ -220,16 +226,17 @@ int main(int argc, char **argv)
             /* the tasklets are created last: they run while waiters are blocked or still arriving */
             launch(base, base + n);
             join(base, base + n);
-            phase_end("B0", nwait);
+            phase_end("B0", (long)nw[p] * rounds[p]);
             base += n;
         }
+        vs_note("apiCall free B0");
         ABT_OK(ABT_barrier_free(&B0));
     } else if (!strcmp(family, "xbar")) {
         int create = (int)vsa_param(3, 0) ? (int)vsa_param(3, 0) : nw[0]; /* num_waiters given to create */
         int n = nw[0];                                                      /* participants */
         ABT_OK(ABT_xstream_barrier_create((uint32_t)create, &X0));
         vs_note("obj X0 nw=%d", create);
-        phase_reset(create, 1, rounds[0]);
+        phase_reset(create, 0, rounds[0]);
         m_exact = (create == n);
         vs_note("phase 0 nw=%d waiters=%d rounds=%d tasklets=0", create, n, rounds[0]);
         /* at most one work unit per stream blocks in the barrier (it blocks the whole stream); the rest are
@@ -250,7 +257,8 @@ int main(int argc, char **argv)
         }
         launch(0, n);
         join(0, n);
-        phase_end("X0", n);
+        phase_end("X0", (long)n * rounds[0]);
+        vs_note("apiCall free X0");
         ABT_OK(ABT_xstream_barrier_free(&X0));
     } else {
         fprintf(stderr, "unknown family %s\n", family);
